@@ -246,7 +246,33 @@ def lib_state():
                     out["%s.%s()" % (m, name)] = core.digest((v.__defaults__, v.__kwdefaults__))
                 continue
             out["%s.%s" % (m, name)] = core.digest(v)
+    out.update(process_state())
     return out
+
+
+def process_state():
+    """Process-global interpreter / numpy state a library call has no business changing."""
+    import decimal
+    import locale
+    import random as _random
+    import sys
+    import warnings as _w
+    import numpy as np
+
+    st = {
+        "<numpy.geterr>": core.digest(sorted(np.geterr().items())),
+        "<numpy.printoptions>": core.digest(sorted((k, repr(v)) for k, v in np.get_printoptions().items())),
+        "<numpy.random.state>": core.digest(np.random.get_state()[1]),
+        "<random.state>": core.digest(_random.getstate()[1][:8]),
+        "<warnings.filters>": core.digest([(f[0], repr(f[1]), getattr(f[2], "__name__", repr(f[2])), repr(f[3]), f[4]) for f in _w.filters]),
+        "<sys.recursionlimit>": core.digest(sys.getrecursionlimit()),
+        "<os.getcwd>": core.digest(os.getcwd()),
+        "<os.environ>": core.digest(sorted(os.environ.items())),
+        "<decimal.prec>": core.digest(decimal.getcontext().prec),
+        "<locale>": core.digest(locale.setlocale(locale.LC_NUMERIC)),
+        "<sys.path>": core.digest(list(sys.path)),
+    }
+    return st
 
 
 def _solo(plan, j, poison):
@@ -359,8 +385,8 @@ def execute(plan, want_logs=False):
         if ls != ls0:
             for key in sorted(set(ls) | set(ls0)):
                 if ls.get(key) != ls0.get(key):
-                    report("LIB_STATE_MUTATED", "mir_eval." + key,
-                           "after %s(%s): library attribute mir_eval.%s changed" % (fn, _argstr(opd), key))
+                    report("LIB_STATE_MUTATED", ("mir_eval." + key) if not key.startswith("<") else key,
+                           "after %s(%s): %s changed" % (fn, _argstr(opd), ("library attribute mir_eval." + key) if not key.startswith("<") else ("process-global state " + key)))
                     ls0[key] = ls.get(key)
         # I3 result vs solo reference
         if me in state["skip_i3"]:
